@@ -9,6 +9,7 @@ import TomlVerif.Driver.C18
 import TomlVerif.Driver.C20
 import TomlVerif.Driver.C03
 import TomlVerif.Driver.C16
+import TomlVerif.Driver.C19
 
 open TomlVerif
 
@@ -26,6 +27,7 @@ def dispatch (mode : String) (line : String) : String :=
   | "c20" => Driver.c20 line
   | "c03" => Driver.c03 line
   | "c16" => Driver.c16 line
+  | "c19" => Driver.c19 line
   | "c14" => Driver.c14 line
   | "cstsem" => Driver.cstSem line
   | _ => "bad-mode"
